@@ -68,7 +68,10 @@ where
 ///
 /// [\[5\] Name](https://www.w3.org/TR/2008/REC-xml-20081126/#NT-Name)
 fn name(input: &str) -> IResult<&str, &str> {
-    recognize(tuple((multinamestartchar0, multinamechar0)))(input)
+    verify(
+        recognize(tuple((multinamestartchar0, multinamechar0))),
+        |v: &str| !v.is_empty(),
+    )(input)
 }
 
 /// (NameChar)+
